@@ -149,8 +149,25 @@ def run_configs(ck, configs, table, which="tree", prop="C01", corrupt=None, sigf
         td = make_dist(cfg, table)
         data = make_data(cfg)
         rng = EnumRNG()
-        sampler = make_sampler(cfg, td, rng, which)
-        res = kernels.exact_row(lambda: sampler.sample_tree(absstate.build(s0, data)), rng)
+        if which == "sweep":
+            # the auxiliary moves composed as in phyclone.run._run_main_sampler, on one tree object that has already
+            # had its density evaluated (as print_stats / append_to_trace do between iterations)
+            dp_s, prg_s = make_sampler(cfg, td, rng, "dp"), make_sampler(cfg, td, rng, "prg")
+
+            def sweep():
+                t = absstate.build(s0, data)
+                td.log_p_one(t)
+                t = dp_s.sample_tree(t)
+                t = prg_s.sample_tree(t)
+                t.relabel_nodes()
+                td.log_p_one(t)
+                t = prg_s.sample_tree(t)
+                return t
+
+            res = kernels.exact_row(sweep, rng)
+        else:
+            sampler = make_sampler(cfg, td, rng, which)
+            res = kernels.exact_row(lambda: sampler.sample_tree(absstate.build(s0, data)), rng)
         lp1 = float(td.log_p_one(absstate.build(s0, data)))
         return ci, s0, res, lp1
 
@@ -254,6 +271,69 @@ def configs_for(tier):
     return out
 
 
+def restrict(key, S):
+    f, o = key
+    out = set()
+    for c in f:
+        own = set(c)
+        for x in f:
+            if x < c:
+                own -= x
+        if own & S:
+            out.add(frozenset(c & S))
+    return (frozenset(out), frozenset(o & S))
+
+
+def target_identity(ck, n, seed):
+    """The SMC weights must telescope to the target the property names: for every complete forest x on n points and
+    compatible orders sigma (TLC's sets), the incremental weights of the real kernel along the retained path plus
+    the last-step correction equal  log_p_one(x) [as the trace records it] - log #orders(x) [TLC's count]."""
+    import numpy as np
+    from .. import gridoracle
+    from . import c09
+    from phyclone.tree import FSCRPDistribution, TreeJointDistribution
+    from phyclone.smc.utils import RootPermutationDistribution
+    import phyclone.run as prun
+
+    r = c09._tlc(n, True, True, "c01_perm%d" % n)
+    tlc.require_ok(r, "Perm N=%d for the target identity" % n)
+    ck.add_tlc("Perm N=%d (orders and counts for the weight-target identity)" % n, r)
+    tab = gridoracle.int_tables(n, 1, 4, seed, lo=1, hi=6)
+    data = gridoracle.data_from_tables(tab, outlier_prob=0.2)
+    checked = 0
+    for rec in r.json_prints:
+        key = absstate.canon(rec["st"])
+        if absstate.data_ids(key) != set(range(n)):
+            continue
+        orders = sorted(tuple(o) for o in rec["orders"])
+        for sigma in (orders[0], orders[-1]) if len(orders) > 1 else (orders[0],):
+            for wiring in ("run", "lib"):
+                td = TreeJointDistribution(FSCRPDistribution(0.7))
+                rng = EnumRNG()
+                if wiring == "run":
+                    kern = prun.setup_kernel(0.2, "semi-adapted", rng, td)
+                else:
+                    kern = c08.kernel_cls("full")(td, rng, outlier_proposal_prob=0.1, perm_dist=RootPermutationDistribution())
+                parent = None
+                total = 0.0
+                for t in range(1, n + 1):
+                    tree_t = absstate.build(restrict(key, set(sigma[:t])), data)
+                    part = kern.create_particle(0.0, parent, tree_t)
+                    total += float(part.log_w)
+                    parent = part
+                total += float(parent.log_p_one) - float(parent.log_p)
+                want = float(td.log_p_one(absstate.build(key, data))) - math.log(rec["count"])
+                checked += 1
+                if abs(total - want) > 1e-9 * (1 + abs(want)):
+                    ck.violation("C01|wiring=%s|weight_target" % wiring,
+                                 "SMC weights along the retained path of %s under order %s telescope to %.12g, but log_p_one - log #orders = %.12g" % (
+                                     absstate.key_str(key), list(sigma), total, want),
+                                 {"state": absstate.to_json(key), "sigma": list(sigma), "wiring": wiring, "tables": tab.tolist()})
+        ck.nontrivial("target:" + absstate.key_str(key))
+    ck.evaluations += checked
+    ck.extra["weight_target_identities_checked_n%d" % n] = checked
+
+
 def run(corrupt=None):
     ck = Check("C01")
     env.use_repo()
@@ -262,6 +342,7 @@ def run(corrupt=None):
     table, r = get_table(seed)
     cfgs = configs_for(ck.tier)
     run_configs(ck, cfgs, table, corrupt=corrupt)
+    target_identity(ck, 4, ck.seed)
     ck.rule = ("exact kernel (all RNG outcomes) from every start forest for each configuration (n, proposal, wiring, outliers, "
                "particles, resampling threshold, density table / real density+alpha); non-trivial = configurations with > 1 start state")
     ck.assumptions = ["EnumRNG mirrors numpy Generator semantics (multinomial last-category remainder, shuffle, choice, integers)",
